@@ -11,7 +11,7 @@
 (*   - afterwards the segment is COMPLETE for stage k: a snapshot (full at the segment end, or partial   *)
 (*     over the segment) of every store of stages <= k exists and, for the last stage, the output        *)
 (*     module's file exists - what the scheduler assumes when it receives MsgJobSucceeded.               *)
-EXTENDS Integers, Sequences, FiniteSets, TLC, Json, IOUtils
+EXTENDS Job, TLC, Json, IOUtils
 
 Trace == ndJsonDeserialize(IOEnv.VERIF_TRACE)
 VARIABLES l, bad, drift, prog
@@ -40,6 +40,19 @@ JobFails(r) ==
              Has(r.after, below[i].name, "kv", E) \/ Has(r.after, below[i].name, "partial", E),
           "C07:store_snapshot_missing_after_successful_job"))
 
+\* the plan the REAL GetExecutionPlan computed for this cache, against the transcription of Job.tla (drift)
+SetOf(seq) == {seq[i] : i \in DOMAIN seq}
+PlanDrift(r) ==
+  IF "plan" \notin DOMAIN r \/ r.plan.err # "" THEN <<>>
+  ELSE LET E == 2 * prog.seg
+           fs == {File(r.before[i].mod, r.before[i].kind) : i \in {j \in DOMAIN r.before : r.before[j].end = E}}
+           p == Plan(prog.mods, prog.out, prog.nstages, fs, r.stage) IN
+       F(p.skip = r.plan.skip, "drift:plan_skip")
+    \o (IF r.plan.skip THEN <<>> ELSE
+           F(p.required = SetOf(r.plan.required), "drift:plan_required_modules")
+        \o F(p.toWrite = SetOf(r.plan.toWrite), "drift:plan_stores_to_write")
+        \o F(p.writers = SetOf(r.plan.writers), "drift:plan_output_writers"))
+
 Init == l = 1 /\ bad = <<>> /\ drift = <<>> /\ prog = <<>>
 Next ==
   /\ l <= Len(Trace)
@@ -48,9 +61,10 @@ Next ==
      IF r.k = "jobprog" THEN prog' = r /\ UNCHANGED <<bad, drift>>
      ELSE IF r.k = "jobref" THEN
         /\ bad' = Append(bad, [i |-> l, why |-> <<"C07:clean_reference_run_failed">>]) /\ UNCHANGED <<drift, prog>>
-     ELSE LET f == JobFails(r) IN
+     ELSE LET f == JobFails(r)  d == PlanDrift(r) IN
         /\ bad' = IF f = <<>> THEN bad ELSE Append(bad, [i |-> l, why |-> f])
-        /\ UNCHANGED <<drift, prog>>
+        /\ drift' = IF d = <<>> THEN drift ELSE Append(drift, [i |-> l, why |-> d])
+        /\ UNCHANGED prog
 
 Done == l = Len(Trace) + 1
 WriteVerdict == Done => JsonSerialize(IOEnv.VERIF_OUT, [n |-> Len(Trace), bad |-> bad, drift |-> drift])
